@@ -714,6 +714,19 @@ func init() {
 				AggregationMethod: wt.AggregationMethod(a.num("m", 2)), XFilesFactor: math.Float32frombits(uint32(hex64(a.str("x", "3f000000")))),
 				ArchiveInfoList: layoutFromCSV(a["layout"]), RandMax: int(a.num("max", 10)), Fill: a.num("fill", 1) == 1, TextOut: to,
 			}
+			if a.num("twice", 0) == 1 {
+				// twice=1: this very command value has been executed before, for another destination, at least one
+				// clock second earlier; the run that is observed is a run of its own (its file is filled up to ITS clock)
+				c.Dest = dest + ".first"
+				os.Remove(c.Dest)
+				c.TextOut = os.DevNull
+				c.Execute()
+				os.Remove(c.Dest)
+				for t := time.Now().Unix(); time.Now().Unix() < t+2; {
+					time.Sleep(50 * time.Millisecond)
+				}
+				c.Dest, c.TextOut = dest, to
+			}
 			t0 := time.Now().Unix()
 			err, panicked := s.execute(a, c, nil)
 			t1 := time.Now().Unix()
